@@ -173,25 +173,66 @@ pub fn gen_join(t: &mut Tape) -> Scenario {
     let (la, ra) = (g.attrs[l].as_ref().unwrap().clone(), g.attrs[r].as_ref().unwrap().clone());
     let est = la.len * ra.len / la.keys.max(ra.keys).max(1);
     let op = if est > 8000 { BinOp::Merge } else { g.gen_join() };
-    if mode == 4 && !matches!(op, BinOp::Merge) {
-        // inside a replay body: the right side is a side input
+    let loop_variant = mode == 4 || mode == 3;
+    // inside loops the stateful sides of the local join algorithms matter most: bias towards
+    // sort-merge and outer variants there
+    let op = if loop_variant && !matches!(op, BinOp::Merge) && g.t.draw(2) == 1 {
+        let kind = [JoinKind::Outer, JoinKind::Left, JoinKind::Inner][g.t.draw(3) as usize];
+        let form = [JoinForm::HashSortMerge, JoinForm::HashHash, JoinForm::Shortcut][g.t.draw(3) as usize];
+        BinOp::Join(kind, form)
+    } else {
+        op
+    };
+    if loop_variant && !matches!(op, BinOp::Merge) {
+        // inside a loop body: the right side is a side input. In an iterate the join output is
+        // fed back, so the side gets unique keys there (at most |side| new elements per round)
+        let iterate = g.t.draw(2) == 1;
+        if iterate {
+            for src in g.sources.iter_mut().skip(1).take(1) {
+                if let Src::Iter(v) | Src::ParIter(v) = src {
+                    v.truncate(40);
+                    for (i, e) in v.iter_mut().enumerate() {
+                        e.key = i as u16;
+                    }
+                }
+            }
+        }
         let l2 = g.unlimited(l);
         let r2 = g.unlimited(r);
         g.attrs[r2].take();
         let a = g.attrs[l2].take().unwrap();
+        let mut body = vec![Step::Bin(0, SIDE_BASE + r2, op.clone())];
+        let mut body_out = 1;
+        if iterate {
+            let keeps_left_repl = matches!(op, BinOp::Join(_, JoinForm::BcastHash) | BinOp::Join(_, JoinForm::BcastSortMerge));
+            if !keeps_left_repl {
+                // already Unlimited
+            }
+            // later rounds see fewer (or no) left elements and other keys: that is where state
+            // carried over from the previous round would show
+            let thin = [PredFn::VMod(2, 0), PredFn::IdBit(3), PredFn::KeyLt(5), PredFn::False, PredFn::True][g.t.draw(5) as usize];
+            body.push(Step::Un(1, UnOp::Filter(thin)));
+            let rk = [MapFn::Rekey(50, 1), MapFn::Rekey(7, 0), MapFn::Add(1)][g.t.draw(3) as usize];
+            body.push(Step::Un(2, UnOp::Map(rk)));
+            body.push(Step::Un(3, UnOp::Shuffle));
+            body_out = 4;
+        }
         let spec = LoopSpec {
-            iterate: false,
+            iterate,
             rounds: 1 + g.t.draw(3) as usize,
             stop_mod: 0,
             stop_rem: 0,
             agg: AggFn::Xor,
-            body: vec![Step::Bin(0, SIDE_BASE + r2, op)],
-            body_out: 1,
+            body,
+            body_out,
             use_state: false,
             cond_sleep_us: [0u64, 300, 70_000][g.t.draw(3) as usize],
         };
         g.steps.push(Step::Loop(l2, spec));
         g.attrs.push(Some(Attr { repl: Repl::One, depth: a.depth, len: 1, keys: 1 }));
+        if iterate {
+            g.attrs.push(Some(Attr { repl: Repl::Unlimited, depth: a.depth, len: a.len * 2, keys: 50 }));
+        }
     } else {
         let j = g.bin(l, r, op);
         if g.t.draw(4) == 3 {
